@@ -32,6 +32,37 @@ def unhx(s: str) -> str:
     return "" if s == "-" else "".join(chr(int(x, 16)) for x in s.split("."))
 
 
+# ---- carriers: the text argument handed over as a str-subclass object holding the same characters
+_carrier = [None]
+
+
+class _S(str):
+    """a plain str subclass"""
+
+
+def txt(s: str) -> str:
+    """decode the main text argument; under `op@carrier` it is passed as an object, not a plain str"""
+    v = unhx(s)
+    c = _carrier[0]
+    if c == "iban":
+        return IBAN(v, allow_invalid=True)
+    if c == "bic":
+        return BIC(v, allow_invalid=True)
+    if c == "sub":
+        return _S(v)
+    if c in ("viban", "vbic"):      # an object that went through the default validation, if it passes
+        cls = IBAN if c == "viban" else BIC
+        try:
+            return cls(v)
+        except Exception:  # noqa: BLE001
+            return cls(v, allow_invalid=True)
+    return v
+
+
+CARRIED = ("iban.new", "iban.validate", "iban.is_valid", "iban.parts", "bic.new", "bic.validate",
+           "bic.is_valid", "bic.parts", "bic.lookup")
+
+
 def tf(b) -> str:
     return "T" if b is True else "F" if b is False else "?%r" % (b,)
 
@@ -44,9 +75,15 @@ CRASH = {"ValueError": "ValueError", "KeyError": "KeyError", "IndexError": "Inde
          "TypeError": "TypeError", "AssertionError": "AssertionError"}
 
 
+# objects the library returned stay alive for a while, as they do in a caller's data structures
+# (state attached to live objects - interning tables, weak caches - is then visible to later calls)
+_alive = __import__("collections").deque(maxlen=256)
+
+
 def outcome(f, show):
     try:
         v = f()
+        _alive.append(v)
     except exceptions.SchwiftyException as e:
         return "err " + type(e).__name__
     except Exception as e:  # noqa: BLE001
@@ -163,8 +200,29 @@ def _synthetic_restore():
     _synthetic["active"] = False
 
 
+def parts_line(o) -> str:
+    parts = [hx(o.country_code), hx(o.checksum_digits), hx(str(o.bban)), hx(o.formatted)]
+    for k in COMPONENT_ORDER:
+        parts.append(outcome(lambda k=k: getattr(o.bban, k), hx))
+    # the IBAN-level accessors must agree with the BBAN's (C11)
+    for k in COMPONENT_ORDER:
+        a = outcome(lambda k=k: getattr(o, k), hx)
+        b = outcome(lambda k=k: getattr(o.bban, k), hx)
+        if a != b:
+            return "ok ACCESSOR-MISMATCH " + k
+    if getattr(o.bban, "country_code", None) != o.country_code:
+        return "ok BBAN-COUNTRY-MISMATCH " + hx(str(getattr(o.bban, "country_code", None)))
+    return "ok " + " ".join(parts)
+
+
 def real(f: list[str]) -> str:
     op = f[0]
+    if "@" in op:
+        base, _carrier[0] = op.split("@", 1)
+        try:
+            return real([base] + list(f[1:]))
+        finally:
+            _carrier[0] = None
     if op == "reg.synthetic":          # reg.reset on the model side; start collecting entries
         _synthetic["active"] = True
         _synthetic["entries"] = []
@@ -244,13 +302,13 @@ def real(f: list[str]) -> str:
     if op == "clean":
         return "ok " + hx(common.clean(unhx(f[1])))
     if op == "iban.new":
-        return outcome(lambda: IBAN(unhx(f[1]), allow_invalid=pb(f[2]), validate_bban=pb(f[3])),
+        return outcome(lambda: IBAN(txt(f[1]), allow_invalid=pb(f[2]), validate_bban=pb(f[3])),
                        lambda o: hx(str(o)))
     if op == "iban.validate":
-        o = IBAN(unhx(f[1]), allow_invalid=True)
+        o = IBAN(txt(f[1]), allow_invalid=True)
         return outcome(lambda: o.validate(pb(f[2])), tf)
     if op == "iban.is_valid":
-        o = IBAN(unhx(f[1]), allow_invalid=True)
+        o = IBAN(txt(f[1]), allow_invalid=True)
         return outcome(lambda: o.is_valid, tf)
     if op == "iban.obj_seq":
         # a sequence of calls on ONE object: v = validate(), V = validate(validate_bban=True), i = is_valid
@@ -265,17 +323,24 @@ def real(f: list[str]) -> str:
                 outs.append(outcome(lambda: o.is_valid, tf))
         return "ok " + ";".join(outs)
     if op == "iban.parts":
-        o = IBAN(unhx(f[1]), allow_invalid=True)
-        parts = [hx(o.country_code), hx(o.checksum_digits), hx(str(o.bban)), hx(o.formatted)]
-        for k in COMPONENT_ORDER:
-            parts.append(outcome(lambda k=k: getattr(o.bban, k), hx))
-        # the IBAN-level accessors must agree with the BBAN's (C11)
-        for k in COMPONENT_ORDER:
-            a = outcome(lambda k=k: getattr(o, k), hx)
-            b = outcome(lambda k=k: getattr(o.bban, k), hx)
-            if a != b:
-                return "ok ACCESSOR-MISMATCH " + k
-        return "ok " + " ".join(parts)
+        return parts_line(IBAN(txt(f[1]), allow_invalid=True))
+    if op == "iban.via_bban":
+        # IBAN.from_bban with the BBAN handed over as a str, as a BBAN object of the same country or as
+        # a BBAN object made for ANOTHER country; answer = the accessor line of the resulting object
+        cc, v, how = unhx(f[1]), unhx(f[2]), f[3]
+        if how == "str":
+            arg = v
+        elif how == "same":
+            arg = BBAN(cc, v)
+        else:
+            arg = BBAN(how.split(":")[1], v)
+        try:
+            o = IBAN.from_bban(cc, arg, allow_invalid=True)
+        except exceptions.SchwiftyException as e:
+            return "err " + type(e).__name__
+        except Exception as e:  # noqa: BLE001
+            return "crash " + CRASH.get(type(e).__name__, "Other")
+        return parts_line(o)
     if op == "iban.from_bban":
         return outcome(lambda: IBAN.from_bban(unhx(f[1]), unhx(f[2])), lambda o: hx(str(o)))
     if op == "iban.generate":
@@ -304,16 +369,16 @@ def real(f: list[str]) -> str:
                              hx(e["name"]), hx(e["short_name"])])
         return outcome(lambda: b.bank, show_bank) + " | " + outcome(lambda: b.bic, show_opt)
     if op == "bic.new":
-        return outcome(lambda: BIC(unhx(f[1]), allow_invalid=pb(f[2]), enforce_swift_compliance=pb(f[3])),
+        return outcome(lambda: BIC(txt(f[1]), allow_invalid=pb(f[2]), enforce_swift_compliance=pb(f[3])),
                        lambda o: hx(str(o)))
     if op == "bic.validate":
-        o = BIC(unhx(f[1]), allow_invalid=True)
+        o = BIC(txt(f[1]), allow_invalid=True)
         return outcome(lambda: o.validate(pb(f[2])), tf)
     if op == "bic.is_valid":
-        o = BIC(unhx(f[1]), allow_invalid=True)
+        o = BIC(txt(f[1]), allow_invalid=True)
         return outcome(lambda: o.is_valid, tf)
     if op == "bic.parts":
-        o = BIC(unhx(f[1]), allow_invalid=True)
+        o = BIC(txt(f[1]), allow_invalid=True)
         return "ok " + " ".join(hx(x) for x in
                                 [o.bank_code, o.country_code, o.location_code, o.branch_code, o.formatted])
     if op == "bic.candidates":
@@ -321,7 +386,7 @@ def real(f: list[str]) -> str:
     if op == "bic.from_bank_code":
         return outcome(lambda: BIC.from_bank_code(unhx(f[1]), unhx(f[2])), lambda o: hx(str(o)))
     if op == "bic.lookup":
-        o = BIC(unhx(f[1]), allow_invalid=True)
+        o = BIC(txt(f[1]), allow_invalid=True)
         return "ok " + " ".join([show_list(o.domestic_bank_codes), show_list(o.bank_names),
                                  show_list(o.bank_short_names), tf(o.exists)])
     if op == "algo.compute":
